@@ -247,6 +247,22 @@ def mpi_case(c):
                     out['reuse'] = bool(np.array_equal(fresh, rho2.getAllData()))
                 except Exception as e:
                     out['reuse'] = 'raised %s: %s' % (type(e).__name__, str(e)[:100])
+        if mode == 'real':
+            # a second simulation in the same process with the same number of v points on another v extent (and other
+            # radii): its finder must carry the weights and the table of ITS spaces, whatever was built before it
+            comm.Barrier()
+            ex3 = dict(ex or {}, vMax=5.0, vMin=-5.0, rMax=12.0)
+            S3 = simdriver.Sim(comm, npts, nprocs, extra=ex3)
+            comm.Barrier()
+            from pygyro.splines.spline_interpolators import SplineInterpolator1D
+            from pygyro.initialisation import initialiser_funcs as init3
+            c3 = S3.constants
+            w3 = SplineInterpolator1D(S3.f.getSpline(3)).get_quadrature_coefficients()
+            t3 = np.array([[init3.f_eq(r, v, c3.CN0, c3.kN0, c3.deltaRN0, c3.rp, c3.CTi, c3.kTi, c3.deltaRTi)
+                            for v in S3.f.eta_grid[3]] for r in S3.f.eta_grid[0]])
+            out['second'] = [bool(np.array_equal(np.asarray(S3.density._quad_coeffs), np.asarray(w3))),
+                             bool(np.array_equal(np.asarray(S3.density._fEq), t3)),
+                             float(np.abs(np.asarray(S3.density._quad_coeffs)).sum()), float(np.abs(np.asarray(w3)).sum())]
         if comm.Get_rank() == 0:
             c0 = S.constants
             out['table'] = np.array(S.density._fEq, copy=True)
@@ -519,6 +535,12 @@ def run():
                 if not all(x.get('repeat', True) for x in ranks):
                     chk.violation(key + ':repeated-call', 'npts=%r grid=%r: the second and third getPerturbedRho on the same finder and the same distribution do not '
                                   'return the density of the first call' % (npts, g), {'kind': 'impl', 'case': ['real', npts, list(g), seed]})
+                bad2 = [(rk, x['second']) for rk, x in enumerate(ranks) if 'second' in x and not (x['second'][0] and x['second'][1])]
+                if bad2:
+                    chk.violation('poisson_solver.DensityFinder.__init__:second-object-in-process', 'npts=%r grid=%r: a DensityFinder built after another one with the same number '
+                                  'of v points on another v extent (vMax 5 after 7.32) and other radii carries %s that are not those of its own spaces '
+                                  '(sum |w| %r, fresh weights %r)' % (npts, g, 'weights' if not bad2[0][1][0] else 'an equilibrium table', bad2[0][1][2], bad2[0][1][3]),
+                                  {'kind': 'impl', 'case': ['real', npts, list(g), seed], 'ranks': [b[0] for b in bad2]})
                 bad_reuse = [(rk, x.get('reuse')) for rk, x in enumerate(ranks) if x.get('reuse', True) is not True]
                 if bad_reuse:
                     chk.violation(key + ':finder-reused-on-another-process-grid', 'npts=%r: a DensityFinder first used on grid %r and then on a distribution living on grid %r '
